@@ -44,6 +44,11 @@ def lru_stems_from_parsed_url(parsed_url, suffix_aware=True):
         port = netloc[1]
         lru.append("t:" + port)
 
+    # NOTE: a bracketed ip literal has no public suffix (its zone id or
+    # IPvFuture text may well end with one: [fe80::1%eth0.com], [v1.a.com])
+    if netloc[0].startswith("["):
+        suffix_aware = False
+
     # Need to process TLD?
     should_process_normally = not suffix_aware
 
